@@ -123,3 +123,31 @@ pub fn wait_cleans(n: u64) -> bool {
     let start = counter("udp.clean_done");
     vcore::net::wait_until(5_000 + 1_500 * n, || counter("udp.clean_done") >= start + n)
 }
+
+// ---- progress of the socket workers, observed through the `udp.socket.loop` probe (top of every loop iteration) ----
+
+static LOOPS: Mutex<std::collections::BTreeMap<String, u64>> = Mutex::new(std::collections::BTreeMap::new());
+pub static UNDECIDED: std::sync::atomic::AtomicU64 = std::sync::atomic::AtomicU64::new(0);
+
+/// Install a probe handler that counts loop iterations per socket worker thread (no other effect)
+pub fn install_loop_counter() {
+    aquatic_common::verif::set_probe_handler(Some(Arc::new(|name: &str| {
+        if name == "udp.socket.loop" {
+            *LOOPS.lock().unwrap_or_else(|e| e.into_inner()).entry(format!("{:?}", std::thread::current().id())).or_insert(0) += 1;
+        }
+        0
+    })));
+}
+
+/// Wait until every live socket worker has started `n` further loop iterations. A datagram that the tracker has
+/// counted as seen has been answered (reply handed to the kernel) or dropped for good once its worker has started
+/// two further iterations (io_uring queues the reply in iteration k, submits and awaits it in k+1).
+pub fn wait_socket_loops(n: u64, timeout_ms: u64) -> bool {
+    let snap = || LOOPS.lock().unwrap_or_else(|e| e.into_inner()).clone();
+    let start = snap();
+    let live = LIVE_SOCKET_WORKERS.load(std::sync::atomic::Ordering::SeqCst);
+    vcore::net::wait_until(timeout_ms, || {
+        let now = snap();
+        now.iter().filter(|(k, v)| **v >= start.get(*k).copied().unwrap_or(0) + n).count() >= live
+    })
+}
